@@ -243,19 +243,27 @@ pub fn generate(r: &mut Rng, contradictory: bool) -> Generated {
                         // the first span's is the library's documented way of
                         // typing that field (merge pushes it onto the span).
                         let (k0, _, w0) = spans[0];
+                        // Decided per class (even classes push words, odd
+                        // ones may list their spans in any order: pushing
+                        // looks at the first listed span).
+                        let pushes = c % 2 == 0;
                         if let Truth::Word { usage, .. } = truths[k0] {
-                            if r.chance(1, 2) && matches!(usage, WordUse::Address | WordUse::Bool | WordUse::SignedNumeric | WordUse::Selector | WordUse::Function) {
+                            if pushes && r.chance(1, 2) && matches!(usage, WordUse::Address | WordUse::Bool | WordUse::SignedNumeric | WordUse::Selector | WordUse::Function) {
                                 let pushed = Ev::word(Some(w0), usage);
                                 pushed_words += 1;
                                 emitted[k0].push(pushed.clone());
                                 judgements.push((holder, pushed));
                             }
                         }
+                        let mut listed: Vec<(usize, usize, usize)> = spans
+                            .iter()
+                            .map(|(k, o, w)| (component(r, *k, &mut class_of, &mut vars_of, &mut judgements), *o, *w))
+                            .collect();
+                        if !pushes && r.chance(1, 2) {
+                            listed.reverse();
+                        }
                         Ev::Packed {
-                            spans:     spans
-                                .iter()
-                                .map(|(k, o, w)| (component(r, *k, &mut class_of, &mut vars_of, &mut judgements), *o, *w))
-                                .collect(),
+                            spans:     listed,
                             is_struct: false,
                         }
                     }
@@ -441,6 +449,20 @@ fn expected_kind(model: &Model, c: usize) -> String {
     }
 }
 
+/// Kind of a resolved expression with packed spans listed lowest-offset-first
+/// (a single packed judgement is kept as it was listed).
+fn kind_sorted(e: &storage_layout_extractor::tc::expression::TypeExpression) -> String {
+    if let TE::Packed { types, is_struct } = e {
+        let mut t = types.clone();
+        t.sort_by_key(|s| (s.offset, s.size));
+        return evidence::te_kind(&TE::Packed {
+            types:     t,
+            is_struct: *is_struct,
+        });
+    }
+    evidence::te_kind(e)
+}
+
 /// Compares the unifier's result with the model. Returns (signature, detail).
 pub fn compare(g: &Generated, o: &UnifyOutcome) -> Option<(String, Value)> {
     if let Some(p) = &o.panic {
@@ -494,7 +516,7 @@ pub fn compare(g: &Generated, o: &UnifyOutcome) -> Option<(String, Value)> {
                 Ok(r) => r,
                 Err(why) => return Some((format!("unresolved:{why}"), json!({"variable": v}))),
             };
-            let got = evidence::te_kind(&resolved);
+            let got = kind_sorted(&resolved);
             if got != expected {
                 let mut kinds: Vec<String> = model.emitted[c].iter().map(erase).collect();
                 kinds.sort();
@@ -515,11 +537,13 @@ pub fn compare(g: &Generated, o: &UnifyOutcome) -> Option<(String, Value)> {
                     skip.contains(me) || o.same_class(evidence::tv_index(*element), rep_of(model, *me))
                 }
                 (TE::Packed { types, .. }, Truth::Packed { spans }) => {
+                    // match spans by offset, whatever order they are listed in
                     types.len() == spans.len()
-                        && types
-                            .iter()
-                            .zip(spans.iter())
-                            .all(|(t, (mk, _, _))| skip.contains(mk) || o.same_class(evidence::tv_index(t.typ), rep_of(model, *mk)))
+                        && spans.iter().all(|(mk, off, w)| {
+                            types.iter().any(|t| {
+                                t.offset == *off && t.size == *w && (skip.contains(mk) || o.same_class(evidence::tv_index(t.typ), rep_of(model, *mk)))
+                            })
+                        })
                 }
                 _ => true,
             };
